@@ -122,8 +122,12 @@ class VC(object):
 
     def canary(self, name, f):
         """negation of something true: must NOT be provable"""
-        r, _ = self.ctx._check(z3.Not(f) if not isinstance(f, bool) else z3.BoolVal(not f))
-        ok = (r == z3.sat)
+        self.ctx.solver.set('timeout', 1000)
+        try:
+            r, _ = self.ctx._check(z3.Not(f) if not isinstance(f, bool) else z3.BoolVal(not f))
+        finally:
+            self.ctx.solver.set('timeout', self.ctx.timeout_ms)
+        ok = (r != z3.unsat)     # vacuity = the path condition (plus the negated canary) is unsatisfiable
         self.canaries[name] = self.canaries.get(name, False) or ok
 
     def unreachable(self, name):
@@ -314,7 +318,6 @@ def run_contract(c, root='/repo/src', verbose=False):
             break
         ctx = Ctx(prefix, timeout_ms=c.timeout_ms, label=c.cid)
         it = Interp(program, ctx, lib)
-        it.rng_log = []
         vc = VC(c, it, program)
         try:
             c.run(vc)
